@@ -10,6 +10,45 @@ CLAIMED = {
         note="Trusts: SimEntropy replaces rng.os only (C-level seeding of unseeded mt19937/numpy generators is not controlled and those values are only range-checked); the JDK transcription and L'Ecuyer multiplier table in dst/engine_d.py.",
         design_ref="DESIGN.md §4 C20"),
 }
+CLAIMED.update({
+    "C16": dict(
+        engine="A",
+        technique="deterministic simulation: seeded call histories over caller-owned protobufs in forked subject processes (re-runs, pre-annotation, persist/reload, restart, resource/storage/allocation faults) checked step by step against an executable reference model of the annotation merge",
+        text="Every check/check_all step of every history is executed on clean clones (per-call verdict V) and on the history-laden protobufs; after each step the real test_info must equal merge(pre, V) of a small independent model (result OR, severity max, factor-set union, no duplicate entries, weak flag, version), exactly one entry per declared active check after an all-checks call, documented severities, return value <=> some positive verdict, and CheckIssuerKey's verdict equals an in-process CheckAllEC oracle on the issuer keys. Histories include restarts with only the serialised protobufs surviving and healed faults during the lazy registry fill. Sampling of histories, not proof.",
+        note="Trusts: the in-memory protobuf substitute; that no check reads test_info (so V on a clean clone equals the verdict on the annotated original); README severity table as documentation; knob max_diff 2^8..2^16 instead of the shipped 2^24.",
+        design_ref="DESIGN.md §4 C16"),
+    "C17": dict(
+        engine="A",
+        technique="deterministic simulation: differential oracle between a long-lived subject process and pristine forked fresh-process children (alone / same batch / permuted / plus healthy / later in history / after restart), over seeded histories with faults",
+        text="For sampled steps the same operation is evaluated in pristine forked children on the artifact alone, the same batch, a permutation and the batch plus healthy artifacts, and compared with the subject's verdict after its history; inside the subject every verdict of an individually judging check on the same artifact is compared across all steps. Individually judging checks must agree exactly (entry and evidence); jointly judging checks must agree under permutation/healthy additions and be monotone with respect to a fresh process where a cached table may legally find more. Histories leave caches, tables and singleton checks in different states (interleaved curve operations, restarts, healed allocation/resource faults). Known finding F5 is reported as KNOWN-FINDING.",
+        note="Trusts: fork gives a pristine library state (asserted at start-up); only non-marginal planted weaknesses are used so LLL order effects cannot flip verdicts; budgeted sampling of fresh queries.",
+        design_ref="DESIGN.md §4 C17"),
+    "C07": dict(
+        engine="A",
+        technique="deterministic simulation: invariant over seeded histories (healthy artifacts generated from the run PRNG are never accused in any step, neighbourhood, cache state, after restarts and healed faults)",
+        text="Every pool contains healthy RSA keys (2048/3072/4096, independent random primes, e=65537), EC keys (uniform private keys on the eight strong curves) or ECDSA signatures (uniform nonces, healthy issuers); on every per-call verdict of every step the invariant 'no positive entry, weak flag clear, all-healthy batch returns False' is evaluated, with weak neighbours, at every position, after arbitrary earlier work. The neighbourhood/history clause is explored; the population clause is sampled at the workload rate reported in the evidence.",
+        note="Trusts: the artifact generator (gmpy2 next_prime from a seeded PRNG, independent affine EC arithmetic) produces healthy artifacts; checks constructed with weaker-than-default parameters are excluded from this invariant.",
+        design_ref="DESIGN.md §4 C07"),
+    "C18": dict(
+        engine="A",
+        technique="deterministic simulation: crash-freedom invariant at every step of seeded histories over degenerate-heavy pools, including the first call after healed seam faults and after restarts",
+        text="At every check/check_all step on a batch inside the statement's domain (any size incl. 0, duplicates, unknown/binary curve ids, coordinates empty/zero/p/huge/off-curve, moduli prime/even/square/power of two/odd length/64-bit, any exponent, r,s in [1,n-1], any hash length, invalid issuer keys) the call must return a bool without raising, in a fresh process, after any history, after restart and after a healed resource/storage/allocation fault. Input coverage is sampling, not enumeration.",
+        note="Trusts: the well-formedness predicate of the generator mirrors the statement's domain; calls made while a fault fires are not judged.",
+        design_ref="DESIGN.md §4 C18"),
+    "C10": dict(
+        engine="B",
+        technique="deterministic simulation: seeded cache histories on EcCurve objects (named singletons and tiny prime-order curves, exhaustive x on the tiny ones) with restarts and allocation failures inside the table build, planted-log oracle from independent arithmetic; plus check-level histories in engine A",
+        text="BatchDL / BatchDLOfDifferences / BatchMultiplyG calls of different bounds and list lengths are interleaved on the same curve object so that each call meets a table left by a larger, smaller or differently-purposed earlier call; on tiny prime-order curves every x below the bound is checked for every (bound, length, history prefix) visited, on named curves x is biased to table and giant-step edges; close pairs must be flagged on both sides, identical keys not, relations must verify. Engine A plants statement-derived structured private keys (all shifts that are multiples of 8, repeated words, boundary values) and small-difference pairs into EC histories, including tables above 2^20 entries.",
+        note="Trusts: the independent affine arithmetic used for ground truth; tiny curves from brute-force point counting.",
+        design_ref="DESIGN.md §4 C10"),
+    "C13": dict(
+        engine="C",
+        technique="deterministic simulation: the suite driver as a state machine under scripted p-value streams, a stub Source, simulated clock jumps and source/test faults, checked against a reference decision model with an independent Fisher combination; end-to-end runs with real tests on seeded generators",
+        text="Driver runs: real TestStructure/TestSource/TestBitString/CombinedPValue with stub tests returning scripted p-values (0, 1, ties with both levels, values just above/below thresholds, floats/ints/np.float64, named lists whose sub-tests appear late, InsufficientDataError on the j-th run, a Source that raises); the model predicts per-sub-test states, finished flags, the exact number of rounds and Source pulls, per-test run counts and the return value. End-to-end runs: seeded SHAKE128/PCG64/Philox must pass at 2^20..2^24 bits, the documented weak generators must fail the documented test at the documented sizes, and the decision rule is re-checked on the real p-values.",
+        note="Trusts: mpmath closed form of Fisher's method; near-ties (1e-9 relative) are accepted either way; statistical clauses are sampled over seeds.",
+        design_ref="DESIGN.md §4 C13"),
+})
+
 NA = {
     "C01": "pure: every clause is the value returned by a stateless factoring helper at one modulus (divisibility of reported factors); no history, seam, clock or fault enters — not a simulation target (DESIGN §5)",
     "C02": "pure: truth of a recorded discrete log is a function of (point, value); no state in the statement; cache effects are decided under C17/C10",
@@ -25,7 +64,7 @@ NA = {
     "C15": "bit-string primitives, stateless",
     "C19": "number-theory, lattice and linear-algebra helpers, stateless",
 }
-PENDING = {p: "claimed by DESIGN.md, check still under construction in this round (will move to checks when its engine lands)" for p in ("C07", "C10", "C13", "C16", "C17", "C18")}
+PENDING = {}
 
 def main():
     checks = []
